@@ -33,6 +33,15 @@ Theorem c05_angle_range_invariant : forall sites, all_sites_safe sites = true ->
   forall es st, Forall in_range st -> finite_inputs es -> Forall in_range (AngleSites.run sites es st).
 Proof. exact angle_range_invariant. Qed.
 
+(** Error paths (round 5): the events are single stores, so a call that raises half-way leaves a PREFIX of its stores
+    behind; the invariant holds after the prefix as well as after the whole call (no store relies on a later one).  The
+    frame theorems below quantify over arbitrary new values for the registers a call may write, which covers a call that
+    was interrupted after some of its writes. *)
+Theorem c05_range_after_interrupted_call : forall sites, all_sites_safe sites = true ->
+  forall done skipped st, Forall in_range st -> finite_inputs done -> Forall in_range (AngleSites.run sites done st) /\
+    (finite_inputs skipped -> Forall in_range (AngleSites.run sites (done ++ skipped) st)).
+Proof. exact angle_range_after_interrupted_call. Qed.
+
 Theorem c05_single_site_refuted :
   exists es, finite_inputs es /\
     exists x, In x (AngleSites.run [("_to_angle"%string, Single360)] es []) /\ B2R x = 360%R.
@@ -150,23 +159,26 @@ Theorem c05_copy_value_refuted :
 Proof. exact copy_value_refuted. Qed.
 
 (** Hash of frozen values (round 4).  [hash_kinds] = what hash(obj) is for each concrete class, read from the source.
-    For every table that passes [hash_table_ok] (mutable classes unhashable; a hashable class is frozen and its hash is
-    a function of ALL of its slots and of nothing else; FrozenVec and FrozenAngle hashable): *)
+    For every table that passes [hash_table_ok] (a FROZEN class is unhashable or its hash is a function of ALL of its slots
+    and of nothing else - not of the object's identity; round 5: the property is silent about the hash of a value that
+    can change, so rows of mutable classes are not constrained; "mutable classes unhashable, FrozenVec/FrozenAngle
+    hashable" is the separate predicate [hash_conventions], an observation of the check and the premise of
+    c05_hashable_is_frozen only): *)
 
-(** equal values hash equal, wherever the two objects live (a copy, a pickle, thaw().freeze() of a dictionary key finds it) *)
+(** equal frozen values hash equal, wherever the two objects live (a copy, a pickle, thaw().freeze() of a dictionary key finds it) *)
 Theorem c05_hash_same_value : forall (V X H : Type) (get : V -> string -> X) (hf : list X -> H) (ident : nat -> H) rows,
-  hash_table_ok rows = true -> forall c a b i j, same_value V X get c a b ->
+  hash_table_ok rows = true -> forall c a b i j, frozen_class c = true -> same_value V X get c a b ->
   hash_of V X H get hf ident rows i (c, a) = hash_of V X H get hf ident rows j (c, b).
 Proof. exact hash_same_value. Qed.
 
 (** the hash ignores no component *)
 Theorem c05_hash_reads_every_slot : forall rows, hash_table_ok rows = true ->
-  forall c l, FrozenHash.lookup c rows = Some (HSlots l) -> forall s, In s (family_slots c) -> In s l.
+  forall c l, frozen_class c = true -> FrozenHash.lookup c rows = Some (HSlots l) -> forall s, In s (family_slots c) -> In s l.
 Proof. exact hash_reads_every_slot. Qed.
 
-(** only frozen classes are hashable *)
+(** only frozen classes are hashable - a convention of today's source ([hash_conventions]), not a clause of C05 *)
 Theorem c05_hashable_is_frozen : forall (V X H : Type) (get : V -> string -> X) (hf : list X -> H) (ident : nat -> H) rows,
-  hash_table_ok rows = true -> forall c i v h, hash_of V X H get hf ident rows i (c, v) = Some h -> frozen_class c = true.
+  hash_conventions rows = true -> forall c i v h, hash_of V X H get hf ident rows i (c, v) = Some h -> frozen_class c = true.
 Proof. exact hashable_is_frozen. Qed.
 
 (** composed with the frame theorem: the hash of a frozen object is the same after EVERY history of public calls *)
@@ -451,17 +463,18 @@ Proof. exact vec_text_roundtrip. Qed.
 (** ------------------------------------------------------------------ THE WHOLE PROPERTY (round 4) *)
 
 (** One statement over everything the translator reads from math.py ([c05_source]: store sites, creations, constructor
-    dispatch, mutation census, result kinds, copy shapes, hash kinds, in-place methods, the format_float / parse_vec_str /
-    __format__ pipelines).  If the boolean checks [c05_source_ok] hold - the check evaluates them on today's generated
+    dispatch, mutation census, result kinds, copy shapes, hash kinds, in-place methods, the == table, the census of state kept
+    between calls, the format_float / parse_vec_str / __format__ pipelines).  If the boolean checks [c05_source_ok] hold - the check evaluates them on today's generated
     objects on every run (obligation whole_property_hypotheses_hold, and each conjunct under its own name) - then:
     angle slots stay in [0, 360) along every history of stores and out of every constructor form; frozen objects and
-    non-receivers never change and the hash of a frozen object is stable and equal for equal values; a copy has the
+    non-receivers never change and the hash of a frozen object is stable and equal for equal values (histories carry no state
+    but the objects: the census of module- and class-level state written by functions is empty); identical values compare ==; a copy has the
     promised class and the value of its source; the text of a component is a plain decimal ("-0" exactly on the
     carved-out class), str -> from_str returns to within 5e-7 + ulp/2 (on the circle for angles, in range again), and
     format(obj, spec) only drops trailing zeros of a fixed-point fraction.  Remaining assumptions are visible in the
     clauses: finite operands ([finite_inputs], [supplied_ok]), float() correctly rounded ([py_float]), public calls only
     ([good_history]). *)
 Theorem c05_property : forall s, c05_source_ok s = true ->
-  whole_range s /\ whole_ctor s /\ whole_frozen s /\ whole_independent s /\ whole_hash s /\ whole_copy_value s /\
+  whole_range s /\ whole_ctor s /\ whole_no_hidden_state s /\ whole_frozen s /\ whole_independent s /\ whole_hash s /\ whole_eq s /\ whole_copy_value s /\
   whole_text_shape s /\ whole_angle_roundtrip s /\ whole_vec_roundtrip s /\ whole_format_spec s.
 Proof. exact c05_whole. Qed.
